@@ -508,3 +508,39 @@ func HookWith(s mangos.Socket, pre func(ev mangos.PipeEvent, p mangos.Pipe)) *Ev
 	})
 	return e
 }
+
+// GoroutineID extracts the numeric id from one goroutine dump ("goroutine 12 [running]:...").
+func GoroutineID(g string) string {
+	g = strings.TrimPrefix(g, "goroutine ")
+	if i := strings.IndexByte(g, ' '); i > 0 {
+		return g[:i]
+	}
+	return g
+}
+
+// MangosGoroutineSet returns the ids of the library goroutines that exist now.
+func MangosGoroutineSet() map[string]bool {
+	m := map[string]bool{}
+	for _, g := range MangosGoroutines() {
+		m[GoroutineID(g)] = true
+	}
+	return m
+}
+
+// WaitNoNewMangosGoroutines polls until every library goroutine that is not in base has gone
+// (or d elapses) and returns the leftovers.
+func WaitNoNewMangosGoroutines(base map[string]bool, d time.Duration) []string {
+	deadline := time.Now().Add(d)
+	for {
+		var left []string
+		for _, g := range MangosGoroutines() {
+			if !base[GoroutineID(g)] {
+				left = append(left, g)
+			}
+		}
+		if len(left) == 0 || time.Now().After(deadline) {
+			return left
+		}
+		time.Sleep(10 * time.Millisecond)
+	}
+}
